@@ -291,6 +291,7 @@ type SolveOpts struct {
 	Timeout  int
 	Portfolio []string
 	Jobs     int
+	NoLead   bool
 }
 
 // discharge runs the solver portfolio on every obligation of the results, in parallel.
@@ -383,6 +384,23 @@ func solveOne(query, base string, cover bool, opts SolveOpts) *SolveResult {
 	timeout := opts.Timeout
 	if cover && timeout > 8 {
 		timeout = 8 // vacuity canaries only need "not unsat"
+	}
+	// cheap first attempt: the lead solver alone for a second (decides the large majority)
+	if len(opts.Portfolio) > 1 && !opts.NoLead {
+		lead := opts.Portfolio[0]
+		if cover {
+			lead = "z3" // the older z3 finds models of define-fun-rec goals faster
+		}
+		lt := 1
+		if timeout < lt {
+			lt = timeout
+		}
+		r := runSolver(solvers[lead], query, opts.Dir, base, lt, false)
+		tried = append(tried, fmt.Sprintf("%s:%s:%.2fs", lead, r.Status, r.Seconds))
+		if r.Status == "unsat" || (r.Status == "sat" && cover) {
+			r.Tried = tried
+			return r
+		}
 	}
 	ctx, cancel := context.WithCancel(context.Background())
 	defer cancel()
